@@ -338,7 +338,60 @@ def cfg_rule(ctx: Ctx, rid: str = "R03.cfg") -> None:
 
 
 def run(ctx: Ctx) -> None:
+    from ..lanerule import lane_rule
+    from ..siblingrule import sibling_rule
+    from ..wiring import wiring_rule
     bound_rule(ctx)
     helper_rule(ctx)
+    lane_rule(ctx, "R03.lane")
+    sibling_rule(ctx, "R03.sib")
+    alloc_rule(ctx, "R03.alloc")
     addr_rule(ctx)
     cfg_rule(ctx)
+    wiring_rule(ctx, "R03.wire", which=("data",), fields=("num_index_bits", "num_block_bits", "associativity", "replacement_strategy"))
+
+
+def alloc_rule(ctx: Ctx, rid: str) -> None:
+    """On a miss the block is fetched from lower memory before it is merged into / returned
+    (write-allocate and read-allocate must not invent block contents)."""
+    m = ctx.model
+    r = ctx.rule(rid, "a missing block is filled from lower memory before use")
+    insts = []
+    for cn in ("WriteBackMemorySystem",):
+        for n in ("write_byte", "write_halfword", "write_word", "_read_block"):
+            insts.append(m.method(cn, n, own=True))
+    insts.append(m.method("WriteThroughMemorySystem", "_read_block", own=True))
+    for f in insts:
+        sn = f.params[0]
+        key0 = short(f.qname)
+        for p in function_paths(f.node):
+            if p.term == "raise":
+                continue
+            facts: set = set()
+            filled = False
+            relevant = False
+            bad = None
+            for e in p.events:
+                if e.kind == "test":
+                    facts |= facts_of(e.node, bool(e.pol))
+                miss = ("None is block_values", True) in facts
+                if e.kind == "stmt" and isinstance(e.node, ast.Assign) and ast.unparse(e.node.targets[0]) == "block_values" and miss:
+                    v = e.node.value
+                    if isinstance(v, ast.Call) and ast.unparse(v.func) == f"{sn}._read_block_from_memory" and \
+                            [ast.unparse(a) for a in v.args] == ["decoded_address"]:
+                        filled = True
+                    elif not filled:
+                        bad = (e.node, f"on a miss the block is taken from `{seg(f, v)}` instead of lower memory")
+                for x in event_exprs(e):
+                    for c in calls_in(x):
+                        nm = c.func.attr if isinstance(c.func, ast.Attribute) else ""
+                        if miss and (nm.endswith("_into_block") or (nm == "write_block" and self_attr(c.func.value, sn, "cache"))):
+                            relevant = True
+                            if not filled and bad is None:
+                                bad = (c, "on a miss the block is merged/allocated before it was fetched from lower memory")
+            if ("directly_write_to_lower_memory", True) in facts:
+                continue
+            if ("None is block_values", True) in facts:
+                r.check(bad is None and filled, f"{key0}|miss", f.loc(bad[0]) if bad else f.loc(),
+                        f"{key0}: {bad[1] if bad else 'the miss path never fetches the block from lower memory'}", None, p.assumptions())
+    r.floor(5)
